@@ -321,16 +321,22 @@ def raw_sig(der):
     return sigencode_string(r, s, ecdsa.NIST256p.order)
 
 
-def ledger_case(rng, alter):
+def ledger_case(rng, alter, ud_marker=None):
     keys = c08.keyset(rng)
     pkh = c08.pubkeys_hash(keys)
     root, dev, att = certgen.rand_key(rng), certgen.rand_key(rng), certgen.rand_key(rng)
     ud = rb(rng, 32)
+    if ud_marker is not None or rng.random() < 0.25:
+        # an operator-chosen UD value that looks like protocol text: a message header, a digit right after
+        # the version, the legacy header in the middle of a page
+        marker = ud_marker or rng.choice([b"HSM:SIGNER:", b"HSM:SIGNER:5.4", b"HSM:UI:5.4", b"POWHSM:5.4::", b"7", b"00"])
+        at = rng.choice([0, 0, rng.randrange(0, 32 - len(marker) + 1)])
+        ud = ud[:at] + marker + ud[at + len(marker):]
     ui_hash, signer_hash = rb(rng, 32), rb(rng, 32)
     ui_msg = b"HSM:UI:5." + bytes([48 + rng.randrange(10)]) + ud + c08.comp(keys[c08.PATHS[0]]) + signer_hash + \
         struct.pack(">H", rng.getrandbits(16))
-    legacy = rng.random() < 0.4
-    s_msg = (b"HSM:SIGNER:5." + bytes([48 + rng.randrange(10)]) + pkh) if legacy else c08.powhsm_msg(rng, pkh)
+    legacy = rng.random() < 0.4 and ud_marker is None
+    s_msg = (b"HSM:SIGNER:5." + bytes([48 + rng.randrange(10)]) + pkh) if legacy else c08.powhsm_msg(rng, pkh, ud=ud)
     hdr = rb(rng, rng.choice([0, 4, 9]))
     dev_signed = b"\x02" + hdr + certgen.pub65(dev)
     att_signed = b"\xff" + certgen.pub65(att)
@@ -366,7 +372,7 @@ def ledger_case(rng, alter):
         # run is what this run starts from (refreshing an attestation)
         ud0 = rb(rng, 32)
         ui0 = ui_msg[:10] + ud0 + ui_msg[42:]
-        s0 = (b"HSM:SIGNER:5." + bytes([48 + rng.randrange(10)]) + pkh) if legacy else c08.powhsm_msg(rng, pkh)
+        s0 = (b"HSM:SIGNER:5." + bytes([48 + rng.randrange(10)]) + pkh) if legacy else c08.powhsm_msg(rng, pkh, ud=ud)
         inp["stale"] = {"ud": ud0.hex(), "ui_msg": ui0.hex(), "signer_msg": s0.hex(),
                         "ui_sig": certgen.sign(certgen.tweaked_priv(att, ui_hash.hex()), ui0, rng).hex(),
                         "signer_sig": certgen.sign(certgen.tweaked_priv(att, signer_hash.hex()), s0, rng).hex(),
@@ -451,6 +457,12 @@ def gen(tier, rng):
             out.append(ledger_case(rng, a))
         for a in S_ALTER:
             out.append(sgx_case(rng, a))
+    # genuine devices attested with a UD value that looks like protocol text
+    for marker in (b"HSM:SIGNER:", b"HSM:SIGNER:5.4", b"HSM:UI:5.4", b"POWHSM:5.4::", b"7", b"00"):
+        for _k in range(2 if tier == "quick" else 10):
+            c = ledger_case(rng, None, ud_marker=marker)
+            c.meta["stream"] = c.meta.get("stream", "ledger") + "+ud-text"
+            out.append(c)
     # the root of trust / chain certificates as read from PEM text (every last base64 character)
     for i in range(400 if tier == "quick" else 20000):
         out.append(pem_case(rng))
